@@ -101,3 +101,4 @@ def run(ctx, R):
     rvfp.rule_fp_hsem(ctx, R)
     cfrcross.rule_a64(ctx, R)
     cfrcross.rule_rv(ctx, R)
+    jitcross.rule_lwexec_a64(ctx, R)
